@@ -19,6 +19,7 @@ func init() {
 func checkC10(c *Ctx) {
 	p := c.P
 	// "only rows matching the chain's conditions and the model value's primary key change" (same rule as C16.key-all)
+	checkC10OverrideLookup(c)
 	checkC16BlockKeepsChain(c, c.Rule("C10.block-keeps-chain", "the handle a transaction block receives keeps the chain's Select/Omit (batched creates): nested arm and Begin agree on NewDB", 2))
 	// the SET list computed for one update must not survive into the next update on the same statement (same rule as C06.execute-reset)
 	checkC06ExecuteReset(c, c.Rule("C10.set-removed", "the SET clause an update computed is removed after execution on every path (a reused statement computes its own)", 6))
